@@ -99,7 +99,7 @@ def shrink(case, fails):
     return {"cfg": case["cfg"], "ops": ops}
 
 
-CONC_PROPS = {"C01", "C02", "C04", "C05", "C14", "C18"}      # properties whose check includes the interleaved stage (lib/conclib.py)
+CONC_PROPS = {"C01", "C02", "C03", "C04", "C05", "C12", "C14", "C18"}      # properties whose check includes the interleaved stage (lib/conclib.py)
 
 
 def run(prop, theorems, tier, replay=None, extra_gen=None, known_classifier=None, rule_note="", link=(), extra_stage=None):
@@ -307,13 +307,16 @@ def run(prop, theorems, tier, replay=None, extra_gen=None, known_classifier=None
                     violations.append((tagv, what, c, t))
         if okc:
             terms = [cl.case_term(c, ob) for c, ob in zip(ccases, obs)]
-            bad, cout = coq_eval(cl.PRELUDE, terms, kind="bool", tag=tag + "ic")
-            if bad is None:
+            vals, cout = coq_eval(cl.PRELUDE, terms, kind="N", tag=tag + "ic")
+            if vals is None:
                 broken.append("interleaved correspondence could not be evaluated: " + cout[-600:])
             else:
-                conc_stats["interleaved_explained"] = conc_stats.get("interleaved_explained", 0) + len(ccases) - len(bad)
-                for i in bad:
-                    disagreements.append({"case": ccases[i], "parsable": True})
+                # 1: some schedule of the model explains the observation; 0: none does; 2: undecided within the search budget
+                conc_stats["interleaved_explained"] = conc_stats.get("interleaved_explained", 0) + sum(1 for v in vals if v == 1)
+                conc_stats["interleaved_undecided_within_budget"] = conc_stats.get("interleaved_undecided_within_budget", 0) + sum(1 for v in vals if v == 2)
+                for i, v in enumerate(vals):
+                    if v == 0:
+                        disagreements.append({"case": ccases[i], "parsable": True})
 
     if replay:
         with open(replay) as f:
